@@ -177,6 +177,13 @@ def worker(k, q, sink, lock):
 
 def main():
     ms = enumerate_mutants()
+    rerun = opt('--rerun')      # re-evaluate the rows of an earlier result file whose checks hit a harness error (the harness was being edited)
+    old_rows = []
+    if rerun:
+        old_rows = [json.loads(l) for l in open(rerun, encoding='utf-8')]
+        want = [(r['file'], r['desc'], r['line']) for r in old_rows if r.get('harness_errors') or r['verdict'] == 'tool-error']
+        ms = [m for m in ms if any(m['file'] == f and m['desc'] == d and abs(m['line'] - l) <= 3 for f, d, l in want)]
+        globals()['outp'] = rerun + '.rerun'
     ms = ms[offset::stride]
     if limit: ms = ms[:limit]
     print(f'{len(ms)} mutants', flush=True)
@@ -188,6 +195,12 @@ def main():
         [t.start() for t in ths]; [t.join() for t in ths]
     sh('git -C /repo worktree prune'); shutil.rmtree(POOL, ignore_errors=True)
     rows = [json.loads(l) for l in open(outp, encoding='utf-8')]
+    if rerun:
+        new_by = {(r['file'], r['desc']): r for r in rows}
+        merged = [new_by.get((r['file'], r['desc']), r) if (r.get('harness_errors') or r['verdict'] == 'tool-error') else r for r in old_rows]
+        with open(rerun, 'w', encoding='utf-8') as f:
+            for r in merged: f.write(json.dumps(r, ensure_ascii=False) + '\n')
+        os.remove(outp); rows = merged
     import collections
     c = collections.Counter(r['verdict'] for r in rows)
     print(dict(c))
